@@ -6,7 +6,7 @@ META = {
     "technique": "Coq proof about a register-level model of compressor.rs/lib.rs (byte-list models of the SSE2/SSSE3/AES-NI intrinsics) against a byte-matrix specification with the AES S-box defined as inverse + affine map; KAT-anchored spec; differential correspondence impl = model = spec on digests (two update calls), on states entered through hook H2, and on the raw intrinsics executed by this host's CPU",
     "level_text": "Machine-checked theorems in Props/C07.v, all closed under the global context: C07_groestl224/256/384/512_eq_spec (for EVERY message of fewer than 2^64 blocks including padding, the register-level model of lib.rs + compressor.rs returns the digest of the byte-matrix specification: full, not partial), built from C07_sbox_table_is_definition / C07_sbox_fast_is_definition / C07_gf_inv_is_inverse (the S-box aesenclast applies is inverse-then-affine), C07_mul2_eq_xtime and the linear-form checker (the xor/rotate/mul2 network of submix is MixBytes = circ(02,02,03,04,05,03,05,07)), the shuffle-mask lemmas (AddRoundConstant + ShiftBytes / ShiftBytesWide through pshufb after AES ShiftRows), C07_rounds_p_q_eq_spec / C07_rounds_p_eq_spec / C07_rounds_q_eq_spec (10 resp. 14 rounds on the transposed row layout = P and Q), C07_tf512_eq_f / C07_tf1024_eq_f (compression function), C07_of512_eq_omega / C07_of1024_eq_omega (output transformation), C07_schedule_eq_spec / C07_schedule_recorded (update + finalize feed exactly the padded message with the big-endian block count, from any buffered state and any prior count, incl. the <=8-bytes-left boundary). Props/C17_groestl.v adds exactness of the counter and conformance from entered states. The specification reproduces 16 published vectors (C07_kats). Implementation = model = spec is checked on generated cases (digests with two update calls, hook-entered states, the raw intrinsics against this CPU).",
     "level_note": "Trusted: Coq kernel+VM; spec transcription (anchored by 31 vectors); intrinsic semantics (compared with this CPU on generated operands); hand-written model tied to the code on generated cases; harness; hook H2. Modelled are the shared *_impl bodies of compressor.rs and lib.rs; NOT modelled: the three wrapper modules aes / ssse3 / sse2 (each calls the same body under another #[target_feature]; the sse2 and ssse3 entries still execute pshufb / aesenclast), the lazy_static autodetect with its panic!, and code generation under #[target_feature] (selection logic: C20; first-use race: C18). No axioms.",
-    "rule": "cases = digests (variant, message, split point of two update calls): every length 0..2*block+1 (quick: all for Groestl-256, all up to block+1 and every second beyond for Groestl-512, boundary lengths r in {0,1,bs-10..bs-6,bs-1} plus a rotating quarter for 224/384), 3..7-block messages around the <=8-bytes-left boundary, thorough: 255/256/257-block messages; contents random/zero/ones/counting/structured; entered states (hook H2): 16 real states read back, arbitrary chaining values with block_counter at 2^k-d (k=8,16,24,32,40,48,56,64) and 8 buffered/tail shapes (0/1/2 blocks emitted, one or two final blocks) in debug and release profile (overflow at 2^64: debug panics, release wraps; compared with the spec whenever the total stays below 2^64 blocks); intrinsics: every intrinsic compressor.rs issues on index patterns, walking bits, sign-boundary bytes, the masks of the code, all 256 byte values for aesenclast/add/cmpgt/mul2; distinct = distinct rendered case; trivial = intrinsic case with all-zero operands; implementation compared with model and spec inside coqc; the LENGTH of every digest returned is checked in the harness against the variant's size (28/32/48/64 bytes: the Coq runner cuts the digest literal to that size) and plain digest calls run under catch_unwind: a wrong length or a panic on a plain message is a direct failure with the case as failing input; the quick-tier rotation of the 8 buffered/tail shapes over (boundary, variant) also rotates with the seed; entered states whose block count reaches 2^64 are tagged domain = beyond in the case JSON (their behaviour as written stays pinned: debug panics, release wraps)",
+    "rule": "cases = digests (variant, message, split point of two update calls): one_long_update (full debug stream only; split = 0, i.e. an empty update and then the WHOLE message in one call: 8 KiB and 16 KiB + 1 for Groestl-224/256, 8 KiB for Groestl-384, 8 KiB and 12 KiB + 1 for Groestl-512, each in its own Coq shard; contents the computable sequence LP (byte i = x_i >> 8, x_(i+1) = 5 x_i + 12345 mod 2^16; defined in the header of the generated case files, so the case carries no 64 KiB literal)), every length 0..2*block+1 (quick: all for Groestl-256, all up to block+1 and every second beyond for Groestl-512, boundary lengths r in {0,1,bs-10..bs-6,bs-1} plus a rotating quarter for 224/384), 3..7-block messages around the <=8-bytes-left boundary, thorough: 255/256/257-block messages; contents random/zero/ones/counting/structured; entered states (hook H2): 16 real states read back, arbitrary chaining values with block_counter at 2^k-d (k=8,16,24,32,40,48,56,64) and 8 buffered/tail shapes (0/1/2 blocks emitted, one or two final blocks) in debug and release profile (overflow at 2^64: debug panics, release wraps; compared with the spec whenever the total stays below 2^64 blocks); intrinsics: every intrinsic compressor.rs issues on index patterns, walking bits, sign-boundary bytes, the masks of the code, all 256 byte values for aesenclast/add/cmpgt/mul2; distinct = distinct rendered case; trivial = intrinsic case with all-zero operands; implementation compared with model and spec inside coqc; the LENGTH of every digest returned is checked in the harness against the variant's size (28/32/48/64 bytes: the Coq runner cuts the digest literal to that size) and plain digest calls run under catch_unwind: a wrong length or a panic on a plain message is a direct failure with the case as failing input; the quick-tier rotation of the 8 buffered/tail shapes over (boundary, variant) also rotates with the seed; entered states whose block count reaches 2^64 are tagged domain = beyond in the case JSON (their behaviour as written stays pinned: debug panics, release wraps)",
     "assumptions": ["little-endian x86-64 host with SSSE3 and AES-NI (the aes:: code path; the ssse3::/sse2:: modules run the same body)",
                     "messages of fewer than 2^64 blocks including padding (the format limit)"],
 }
